@@ -146,7 +146,34 @@ def source_of(infos):
                       type(val).__name__))
   for var, expr, _ in reads:
     lines.append("%s = %s" % (var, expr))
-  return "\n".join(lines) + "\n", class_line, reads
+  # Second phase: after those reads, assign `x` on every class that has a
+  # subclass (one class at a time, cumulatively) and read `x` again through
+  # each of its descendants: the lookup must find the new definition exactly
+  # where CPython's linearisation puts that class.
+  reads2 = []
+  step = 0
+  for k in infos:
+    if not k["ok"]:
+      continue
+    desc = [d for d in infos if d["ok"] and d is not k and
+            k["cls"] in d["cls"].__mro__]
+    if not desc:
+      continue
+    step += 1
+    marker = type("R%d" % step, (), {})
+    lines.insert(0, "class R%d: pass" % step)
+    for name in class_line:
+      class_line[name] += 1
+    setattr(k["cls"], "x", marker())
+    lines.append("%s.x = R%d()" % (k["name"], step))
+    for d in [k] + desc:
+      want = type(getattr(d["cls"], "x")).__name__
+      for form, expr in (("c", "%s.x" % d["name"]), ("i", "%s().x" % d["name"])):
+        var = "r%d%s_%s" % (step, form, d["name"])
+        reads2.append((var, expr + "   # after %s.x = R%d()" % (k["name"], step),
+                       want))
+        lines.append("%s = %s" % (var, expr))
+  return "\n".join(lines) + "\n", class_line, reads + reads2
 
 
 def check_source_route(ctx, spec, infos, feats, case):
